@@ -193,7 +193,9 @@ pub fn read6_raw(bytes: &[u8], hint: Option<bool>, cap: Option<usize>) -> ReadOu
 pub fn read6_txt(r: &ReadOut6) -> (String, String) {
     match r {
         Ok(Ok((p, ws, vs))) => (
-            format!("ok {} w={} v={}", txt6(p), warns6(ws), join(vs)),
+            // c= the class predicates K05, K06 and the size limits, as the harness decides them (the
+            // driver prints the Coq definitions K05_6, K06_6, expressible6 for the same value)
+            format!("ok {} w={} v={} c={}{}{}", txt6(p), warns6(ws), join(vs), k05_6(p) as u8, k06_6(p) as u8, expressible6(p) as u8),
             format!("r6ok{}{}", &txt6(p)[..1], warns6(ws)),
         ),
         Ok(Err((e, ws))) => (format!("err {:?} w={}", e, warns6(ws)), format!("r6err{:?}{}", e, warns6(ws))),
